@@ -294,6 +294,11 @@ def apply(it, fn, args, dest_ty, term, caller, depth):
         r = vec_model(it, name, fn, args, dest_ty)
         if r is not NotImplemented:
             return r
+    if name == "default" and fn.get("trait", "").endswith("Default") and not args:
+        if dest_ty.startswith("std::vec::Vec<") or dest_ty.startswith("std::string::String"):
+            return VecV([])
+        if dest_ty.startswith("std::collections::VecDeque<"):
+            return DequeV([])
     if path == "core::vec::from_elem":
         n = args[1]
         if isinstance(n, Int) and n.is_conc():
